@@ -35,6 +35,9 @@ CLAIMED = {
  "C19": dict(
    text="Proof over finite data: for every GOOS/GOARCH examined (quick: 7 targets, thorough: all of `go tool dist list` that type-check, 44 on the unchanged tree) the module is loaded under that build context and ground obligations are generated from the type-checker's constant values: the eight actions, two filter flags, EPERM/ENOSYS, PR_SET_NO_NEW_PRIVS and the seccomp modes equal the UAPI oracle; on non-Linux targets the three loader stubs contain no call expression and Supported is 'return false'; GOARCH has tables iff it is amd64/386/arm/arm64, else GetInfo(\"\") errs by its verified contract and Policy.Assemble propagates the error (verified postcondition).",
    note="Trusted: vendored UAPI headers (/verif/oracle); MIPS ENOSYS=89 from kernel sources (header not in the image). Same program wherever compiled additionally relies on determinism (C13).", technique="ground obligations from go/types constant evaluation per build context + contracts", ref="7 C19"),
+ "C16": dict(
+   text="Proof for all disassembly texts (the text is a ghost sequence of arbitrary strings delivered by the scanner): (a) totality: every automatically generated no-panic obligation of Parse, parseX86_64, findSyscallNum, lastInstruction, isRawSyscall, isFunctionCall, isSyscallFunction, ExtractSyscalls (string slicing, fields[i], matches[i], nil derefs) is discharged with no precondition on the text; both loops have proved decreases clauses; (b) scanner error => non-nil error and no result; (c) function scope: loop invariant 'every element of the instruction window is a line after the last TEXT marker', findSyscallNum/parseX86_64 only take Assembly from that window, asserted at the append; (d) every reported (Num, Name) is an entry of the table; (e) the result list is append-only within a run.",
+   note="Trusted: library contracts in spec/io.spec (bufio.Scanner delivers the ghost lines, Err() non-nil exactly when it stopped early; strings.Fields/Contains/HasPrefix, regexp.FindStringSubmatch returns a substring match). Regular expressions are uninterpreted. Monotonicity across texts (appending functions never removes results) follows from (e) + the reset of the window at TEXT + determinism by a fold argument that is not machine-checked; the replay family exercises it.", technique=TECH, ref="7 C16"),
 }
 NA_REASON = "check not built yet (work in progress; DESIGN.md section 7 describes the planned contracts)"
 
